@@ -75,6 +75,20 @@ V_HARNESS {
   { struct Ref* r = $R(i); watch(r, 1); expect_throw = ClassError; call_with(r, tuple()); }                                 /* Ref does not implement Call */
 #elif CASE == 24
   expect_throw = ClassError; type_method(Int, Current, current);                                                            /* type-level method on an unimplemented class */
+#elif CASE == 25
+  { struct Table* t = new_raw(Table, Int, Int); watch(t, 7); expect_throw = ValueError; set(t, i, s); }        /* value of the wrong type */
+#elif CASE == 26
+  { struct Table* t = new_raw(Table, Int, Int); watch(t, 7); expect_throw = ValueError; set(t, s, i); }        /* key of the wrong type */
+#elif CASE == 27
+  { struct Table* t = new_raw(Table, Int, Int); watch(t, 7); expect_throw = ValueError; mem(t, s); }
+#elif CASE == 28
+  { var t = new_raw(Tree, Int, Int); watch(t, 6); expect_throw = ValueError; set(t, i, s); }
+#elif CASE == 29
+  { var t = new_raw(Tree, Int, Int); watch(t, 6); expect_throw = ValueError; set(t, f, i); }
+#elif CASE == 30
+  { var t = new_raw(Tree, Int, Int); watch(t, 6); expect_throw = FormatError; resize(t, 1 + IN.n % 8); }       /* a Tree can only be resized to 0 */
+#elif CASE == 31
+  { var a = new_raw(Array, Int); watch(a, 5); expect_throw = IndexOutOfBoundsError; pop(a); }
 #endif
   V_ASSERT(0, "the misuse must be reported by an exception");
 }
